@@ -234,6 +234,9 @@ pub fn finish(rep: Report) -> i32 {
         let _ = writeln!(out, "MACHINERY-ERROR: cannot write {}: {}", path, e);
         return 2;
     }
+    // a per-tier copy, so that the record of a thorough run survives the next quick run
+    let _ = std::fs::create_dir_all(format!("{}/by-tier", dir));
+    let _ = std::fs::write(format!("{}/by-tier/{}.{}.json", dir, rep.prop, rep.tier), serde_json::to_string_pretty(&ev).unwrap());
     let _ = writeln!(
         out,
         "{} {}: {} frames, {} states, {} outcome classes, {} violations, {} known-finding keys, {:.1}s",
